@@ -95,10 +95,11 @@ def gen_sheet(rng, max_top=3, max_depth=3, max_items=3, p_sip=0.0, allow_nosemi=
             # top-level variable declaration
             ns, ne = w.add(w_name)
             w.add(': ')
-            vs, ve = w.add(rng.choice(['1px', 'red', '"a}b"', '(1 + 2)']))
+            tv = rng.choice(['1px', 'red', '"a}b"', '(1 + 2)'])
+            vs, ve = w.add(tv)
             semi, _ = w.add(';')
             recs.append({'type': 'decl', 'start': ns, 'name_end': ne, 'colon': ne, 'vs': vs, 've': ve, 'semi': semi, 'end': semi + 1,
-                         'parent': None, 'toks': None, 'tr': [], 'sip': False, 'children': []})
+                         'parent': None, 'toks': [tv], 'tr': [(vs, ve)], 'sip': False, 'children': []})
             w.add(rng.choice(['\n', ' ', '']))
         gen_rule(rng, 0, w, recs, None, max_depth, max_items, p_sip, allow_nosemi)
     w.add(rng.choice(['', '\n', ' ', '/* end */']))
